@@ -52,13 +52,16 @@ let smith_response (line : string) : string =
     String.concat ";" (List.map one (String.split_on_char ';' streams))
   | _ -> failwith "smith_response line"
 
-(* input: <schema-src-hex> <doc-src-hex> <schema-dump> <ast-dump>; output: cov=<0|1> (rs_known_covariant) *)
+(* input: <opname> <schema-src-hex> <doc-src-hex> <schema-dump> <ast-dump>;
+   output: cov=<0|1> (rs_known_covariant) typed=<0|1> (rs_typed_operation: the hypotheses of C33_no_panic) *)
 let smith_class (line : string) : string =
   match String.split_on_char ' ' line with
-  | [_ssrc; _dsrc; sdump; adump] ->
+  | [opname; _ssrc; _dsrc; sdump; adump] ->
     let s = Lib_schema.schema_of_string sdump in
     let d = Lib_ast.document_of_string adump in
+    let op = if opname = "-" then None else Some (str_of_hex opname) in
     "cov=" ^ (if rs_known_covariant s d then "1" else "0")
+    ^ " typed=" ^ (if rs_typed_operation s d op then "1" else "0")
   | _ -> failwith "smith_class line"
 
 let families = [ ("smith_response", smith_response); ("smith_class", smith_class) ]
